@@ -349,8 +349,8 @@ Theorem builtins_excluded : forall e n,
 Proof.
   intros e n H. unfold name_lookup.
   destruct (ne_sym e); [discriminate|].
-  destruct (assoc n logger_funcs); [discriminate|].
-  destruct (str_mem n other_ast_funcs); [discriminate|].
+  destruct (if ne_local e then assoc n logger_funcs else None); [discriminate|].
+  destruct (ne_local e && str_mem n other_ast_funcs); [discriminate|].
   destruct (ne_global e); [discriminate|].
   destruct (str_mem n ast_factory_funcs); [discriminate|].
   destruct H as [H|H].
@@ -364,8 +364,8 @@ Theorem builtin_only_if : forall e n,
 Proof.
   intros e n. unfold name_lookup.
   destruct (ne_sym e); [discriminate|].
-  destruct (assoc n logger_funcs); [discriminate|].
-  destruct (str_mem n other_ast_funcs); [discriminate|].
+  destruct (if ne_local e then assoc n logger_funcs else None); [discriminate|].
+  destruct (ne_local e && str_mem n other_ast_funcs); [discriminate|].
   destruct (ne_global e); [discriminate|].
   destruct (str_mem n ast_factory_funcs) eqn:Ef; [discriminate|].
   destruct (ne_pybuiltin e); [|discriminate].
@@ -391,12 +391,13 @@ Qed.
 
 (* print and the log functions denote methods of the script's logger unless the script rebinds them in the
    current table *)
-Theorem print_is_logger : forall e, ne_sym e = false -> exists lvl, name_lookup e "print" = KLogger lvl.
-Proof. intros e H. unfold name_lookup. rewrite H. cbn. eauto. Qed.
+Theorem print_is_logger : forall e, ne_sym e = false -> ne_local e = true -> exists lvl, name_lookup e "print" = KLogger lvl.
+Proof. intros e H Hl. unfold name_lookup. rewrite H, Hl. cbn. eauto. Qed.
 
-Theorem log_funcs_are_loggers : forall e n lvl, ne_sym e = false -> In (n, lvl) log_names -> name_lookup e n = KLogger lvl.
+Theorem log_funcs_are_loggers : forall e n lvl,
+  ne_sym e = false -> ne_local e = true -> In (n, lvl) log_names -> name_lookup e n = KLogger lvl.
 Proof.
-  intros e n lvl H Hin. unfold name_lookup. rewrite H. cbn in Hin.
+  intros e n lvl H Hl Hin. unfold name_lookup. rewrite H, Hl. cbn in Hin.
   repeat (destruct Hin as [E|Hin]; [inversion E; reflexivity|]). destruct Hin.
 Qed.
 
@@ -465,11 +466,13 @@ Example ex_stubs :
 Proof. repeat split; vm_compute; reflexivity. Qed.
 
 Example ex_names :
-  name_lookup {| ne_sym := false; ne_global := false; ne_pybuiltin := true |} "open" = KUndefined
-  /\ name_lookup {| ne_sym := false; ne_global := false; ne_pybuiltin := true |} "__import__" = KUndefined
-  /\ name_lookup {| ne_sym := false; ne_global := false; ne_pybuiltin := true |} "len" = KBuiltin
-  /\ name_lookup {| ne_sym := false; ne_global := false; ne_pybuiltin := true |} "print" = KLogger "debug"
-  /\ name_lookup {| ne_sym := false; ne_global := false; ne_pybuiltin := true |} "eval" = KFactory.
+  name_lookup {| ne_sym := false; ne_global := false; ne_local := true; ne_pybuiltin := true |} "open" = KUndefined
+  /\ name_lookup {| ne_sym := false; ne_global := false; ne_local := true; ne_pybuiltin := true |} "__import__" = KUndefined
+  /\ name_lookup {| ne_sym := false; ne_global := false; ne_local := true; ne_pybuiltin := true |} "len" = KBuiltin
+  /\ name_lookup {| ne_sym := false; ne_global := false; ne_local := true; ne_pybuiltin := true |} "print" = KLogger "debug"
+  /\ name_lookup {| ne_sym := false; ne_global := false; ne_local := true; ne_pybuiltin := true |} "eval" = KFactory
+  (* inside a trigger string expression: no logger print, and still not the real one *)
+  /\ name_lookup {| ne_sym := false; ne_global := false; ne_local := false; ne_pybuiltin := true |} "print" = KUndefined.
 Proof. repeat split; vm_compute; reflexivity. Qed.
 
 (* ---------- Model |= Spec on the functions the correspondence evaluates ---------- *)
@@ -533,11 +536,13 @@ Proof.
     apply negb_true_iff. destruct (nkind_eqb (nc_kind c) KBuiltin) eqn:Ek; [|reflexivity].
     apply nkind_eqb_eq in Ek. exfalso. rewrite Ek in Hk. revert Hk. apply builtins_excluded.
     apply orb_true_iff in E. destruct E as [E|E]; [left; apply six_excluded, str_mem_In; exact E|right; exact E].
-  - destruct (nc_shadow c) eqn:Es; [reflexivity|].
+  - destruct (nc_shadow c) eqn:Es; [reflexivity|]. cbn [orb].
+    destruct (scope_is_trig (nc_scope c)) eqn:Et; [reflexivity|].
     assert (Hsym : ne_sym (nenv_of c) = false) by (unfold nenv_of; cbn [ne_sym]; rewrite Es; reflexivity).
+    assert (Hloc : ne_local (nenv_of c) = true) by (unfold nenv_of; cbn [ne_local]; rewrite Et; reflexivity).
     destruct (String.eqb_spec (nc_name c) "print") as [Ep|Ep].
-    + destruct (print_is_logger _ Hsym) as (lvl & Hp). rewrite Ep, Hp in Hk. rewrite <- Hk in Hl |- *. exact Hl.
+    + destruct (print_is_logger _ Hsym Hloc) as (lvl & Hp). rewrite Ep, Hp in Hk. rewrite <- Hk in Hl |- *. exact Hl.
     + destruct (assoc (nc_name c) log_names) as [lvl|] eqn:Ea; [|reflexivity].
-      apply assoc_In in Ea. rewrite (log_funcs_are_loggers _ _ _ Hsym Ea) in Hk.
+      apply assoc_In in Ea. rewrite (log_funcs_are_loggers _ _ _ Hsym Hloc Ea) in Hk.
       rewrite <- Hk in Hl |- *. cbn [nkind_eqb]. rewrite String.eqb_refl. exact Hl.
 Qed.
